@@ -108,12 +108,12 @@ def run(ctx, chk):
 
 def check_coverage(ctx, chk):
     fi, ip, s, cn = method_run(ctx, "_ensure_host_vulnerability", no_inline=(
-        "_host_is_vulnerable", "_update_host_to_vulnerable", "_is_sensitive_host"))
+        "_host_is_vulnerable", "_update_host_to_vulnerable"))
     G = f"{GEN_MOD}:ScenarioGenerator."
     upd = [ev for ev in s.events if ev.kind == "call"
            and ev.data["fname"] == G + "_update_host_to_vulnerable"]
     HK, HV = "each(G.hosts)", "G.hosts[each(G.hosts)]"
-    SENS = f"{G}_is_sensitive_host(G, {HK})"
+    SENS = f"{HK} in G.sensitive_hosts"     # (a helper that says so is inlined)
     VUL2 = f"{G}_host_is_vulnerable(G, {HV}, 2)"
     sens_upd = [ev for ev in upd if len(ev.data["args"]) >= 3 and ev.data["args"][2] == C(2)]
     ok = len(sens_upd) == 1
@@ -171,9 +171,17 @@ def check_coverage(ctx, chk):
         ok = a_ex == [host, "False"] and a_pe == [host, "True"] and conds == want and \
             pe[0].seq > ex[0].seq
         detail = f"exploit patch{tuple(a_ex)}, escalation patch{tuple(a_pe)}; returns under {conds}"
-    chk.ob("C16.coverage", "_update_host_to_vulnerable returns only once the chosen exploit grants "
-           "enough access, or after an OS-compatible escalation was enabled (os_constraint=True, "
-           "after the OS was fixed); otherwise it raises", ok, detail[:500], fi.module.path)
+    desc = ("_update_host_to_vulnerable returns only once the chosen exploit grants enough access, "
+            "or after an OS-compatible escalation was enabled (os_constraint=True, after the OS was "
+            "fixed); otherwise it raises")
+    if not ex or not pe:
+        # the two patching helpers are private: under other names / signatures the rule has nothing
+        # to compare the exits with
+        chk.undecided("C16.coverage", desc, "the patching helpers _update_host_exploit_vulnerability"
+                      " / _update_host_privesc_vulnerability are not called under these names: "
+                      + detail, fi.module.path)
+    else:
+        chk.ob("C16.coverage", desc, ok, detail[:500], fi.module.path)
     # _host_is_vulnerable predicate
     fi, ip, s, cn = method_run(ctx, "_host_is_vulnerable", no_inline=(
         "_host_is_vulnerable_to_exploit", "_host_is_vulnerable_to_privesc"))
